@@ -19,6 +19,7 @@ import (
 	"time"
 
 	"github.com/Comcast/rulio/core"
+	"github.com/Comcast/rulio/cron"
 	"github.com/Comcast/rulio/sys"
 	"github.com/anishathalye/porcupine"
 
@@ -83,18 +84,17 @@ func twin(r *rep.Report, e rep.Env) {
 			// reference: operating core.Locations directly
 			direct := map[string]*core.Location{}
 			for _, l := range []string{"x", "y", "z"} {
-				loc, _ := drv.NewLoc(l, kind, drv.MustMem())
+				// the System wires cron hooks to every location's state (they make removing an
+				// absent id an error): the directly operated locations get the same hooks
+				ctx := drv.Ctx()
+				st, _ := drv.NewState(ctx, kind, l, drv.MustMem())
+				cron.AddHooks(ctx, cronner.New(true), st)
+				loc, _ := core.NewLocation(ctx, l, st, nil)
 				direct[l] = loc
 			}
 			var want []string
 			for _, q := range hist {
-				out := drv.LocDo(direct[q.Loc], q)
-				if (q.Op == "remFact" || q.Op == "remRule" || (q.Op == "enable" && q.On)) && out == "ok" {
-					// through the System the cron remove-hook makes removing an absent id an error;
-					// the direct run has no hook: mark for a lenient comparison
-					out = "ok-or-notfound"
-				}
-				want = append(want, out)
+				want = append(want, drv.LocDo(direct[q.Loc], q))
 			}
 			for ttlName, ttl := range ttls {
 				for _, check := range []bool{false, true} {
@@ -142,10 +142,7 @@ func twin(r *rep.Report, e rep.Env) {
 						}
 						got := drv.SysDo(s, q)
 						w := want[i]
-						ok := got == w
-						if w == "ok-or-notfound" {
-							ok = got == "ok" || strings.Contains(got, "not found")
-						}
+						ok := got == w || (strings.HasPrefix(got, "ERR:") && strings.HasPrefix(w, "ERR:") && strings.Contains(got, "not found") == strings.Contains(w, "not found"))
 						r.Case(ttlName != "forever" && reopened, fmt.Sprint(e.BatchSeed(), hi, kind, ttlName, check, i))
 						if !ok {
 							r.Violate("", "a request through the System returns something else than operating the location directly / under another cache setting", rep.J{"config": cfg, "history": hist[:i+1], "request": q, "got": got, "direct": w})
